@@ -11,6 +11,11 @@ import (
 // TODO we assume it's always application keys. Add in the right modes and
 // encode properly
 func encodeXterm(key vaxis.Key, deckpam bool, decckm bool) string {
+	if key.EventType == vaxis.EventRelease {
+		// the xterm encoding has no key release reports: the bytes of
+		// the key would reach the child as a second press
+		return ""
+	}
 	// ignore any kitty mods
 	xtermMods := key.Modifiers & vaxis.ModShift
 	xtermMods |= key.Modifiers & vaxis.ModAlt
